@@ -118,7 +118,8 @@ def gen_cases(rng, tier):
         cols = mk_cols([k1, k2])
         for pats in itertools.product(PATTERNS, repeat=2):
             cases.append({"in": [OP_CINS, cols, [], [_pset(5, pats)], [0]], "kind": "ins1"})
-            cases.append({"in": [OP_OINS, cols, [], [_pset(5, pats)], [0]], "kind": "orm-ins1"})
+            if tier == "thorough" or (k1 + k2 + PATTERNS.index(pats[1])) % 2 == 0:
+                cases.append({"in": [OP_OINS, cols, [], [_pset(5, pats)], [0]], "kind": "orm-ins1"})
             base = _base_rows(1, 2)
             if tier != "thorough" and (k1 * 6 + k2 + PATTERNS.index(pats[0])) % 2:
                 continue  # quick tier: every other (kinds, pattern) combination for UPDATE
@@ -149,7 +150,7 @@ def gen_cases(rng, tier):
                   "kind": "multivalues-empty-first"})
     cases.append({"in": [OP_MVAL, mk_cols([NONE, SCALAR]), [], [[], [[1, 41]], [[1, 3], [2, 4]]], [0]],
                   "kind": "multivalues-empty-first"})
-    for _ in range(600 if tier == "thorough" else 130):
+    for _ in range(600 if tier == "thorough" else 90):
         ks = [rng.choice(mkinds) for _ in range(3)]
         cols = mk_cols(ks)
         n = rng.randint(2, 4)
@@ -167,7 +168,7 @@ def gen_cases(rng, tier):
             if (k1 * 7 + k2) % 3 == 0:
                 pats = ["none" if p == "value" else p for p in pats]
             cases.append({"in": [OP_ORD, cols, _base_rows(1, 2), [_pset(1, pats)], order], "kind": "ordered1"})
-    for _ in range(400 if tier == "thorough" else 90):
+    for _ in range(400 if tier == "thorough" else 60):
         ks = [rng.choice(kinds) for _ in range(3)]
         cols = mk_cols(ks)
         order = rng.sample([1, 2, 3], rng.randint(1, 3))
@@ -190,7 +191,7 @@ def gen_cases(rng, tier):
             cases.append({"in": [OP_PKFALSY, mk_cols([SCALAR]), [], [_pset(None, [pat])], [variant]],
                           "kind": "pk-falsy", "model": False})
     # ---- random ----
-    nrand = 3000 if tier == "thorough" else 320
+    nrand = 3000 if tier == "thorough" else 200
     for _ in range(nrand):
         nc = 3
         ks = [rng.choice(kinds) for _ in range(nc)]
